@@ -57,6 +57,12 @@ example : paragraphsOf [0x61, 0xa, 0xa, 0xa, 0x62] { lineSep := [0xa], paraSep :
 
 open RosedVerif.BridgeOps RosedVerif.BridgeEditorOps RosedVerif.BridgeEditorParas RosedVerif.OpsStructure
 
+/- `hAL` (the letter `A` is not a rune of the line separator) was added with the repair of defect D18:
+WrapOpts pads a paragraph with stand-ins for the paragraph separator's affixes — the letter `A`,
+since the repair another letter (`cxA.placeholder`, `C07_wrapOpts_para_placeholder_fresh`) when the
+line separator contains `A` — and the other letter need not be a cluster of `V`.  Before the repair
+the theorem held for such separators too, but only because both levels ran the same defective
+algorithm (the stand-ins were read as line separators and real text was deleted in their place). -/
 /-- **paragraph mode on code points**: WrapOpts with PreserveParagraphs on a text over a stable vocabulary (with space, hyphen and the placeholder `A`), separators that cannot be found across cluster boundaries (`GoodPara`): the code-point run of the model — paragraph splitting with its look-ahead, affix placeholders, per-paragraph wrap, re-join — is the flattening of the cluster run, for any editor -/
 theorem C11_wrapOpts_code_points_para {V : List (List Int)} (hV : VocabStable V = true)
     (hsp : [0x20] ∈ V)
@@ -68,9 +74,22 @@ theorem C11_wrapOpts_code_points_para {V : List (List Int)} (hV : VocabStable V 
     (width : Int)
     (o : Options (List Int))
     (hpp : o.preservePara = true)
-    (hG : GoodPara V (o.withDefaults cxB).lineSep (o.withDefaults cxB).paraSep) :
+    (hG : GoodPara V (o.withDefaults cxB).lineSep (o.withDefaults cxB).paraSep)
+    (hAL : (0x41 : Int) ∉ ((o.withDefaults cxB).lineSep).flatten) :
     Editor.wrapOpts cxA ed.flat width o.flat = (Editor.wrapOpts cxB ed width o).map Editor.flat :=
-  wrapOpts_bridge_para hV hsp hhy hA hspTail ed ht width o hpp hG
+  wrapOpts_bridge_para hV hsp hhy hA hspTail ed ht width o hpp hG hAL
+
+/-- the hypotheses are satisfiable: the default separators, any text over `demoVocabA` (ASCII
+letters, space, hyphen, tab, a decomposed `é`, a flag, newline, `A`), any editor options -/
+example (toks : List (List Int)) (ht : ∀ t ∈ toks, t ∈ demoVocabA) (width : Int)
+    (o0 o : Options (List Int)) (hpp : o.preservePara = true) (hl : o.lineSep = [])
+    (hp : o.paraSep = []) :
+    Editor.wrapOpts cxA (.root toks.flatten o0.flat) width o.flat =
+      (Editor.wrapOpts cxB (.root toks o0) width o).map Editor.flat :=
+  C11_wrapOpts_code_points_para demoVocabA_stable (by decide) (by decide) (by decide)
+    (BridgeWrap.spTail_of_spOnly (by decide)) (.root toks o0) ht width o hpp
+    (by rw [(default_seps o hl hp).1, (default_seps o hl hp).2]; exact demoVocabA_goodPara)
+    (by rw [(default_seps o hl hp).1]; decide)
 
 /-- the same for IndentOpts in paragraph mode -/
 theorem C11_indentOpts_code_points_para {V : List (List Int)} (hV : VocabStable V = true)
